@@ -99,6 +99,8 @@ class CompScenario(Scenario):
         for name, at in self.callers.items():
             ts = [t for t in tm.transactions if getattr(t, "owner", None) is at]
             if len(ts) != 1:
+                if getattr(self, "lenient_callers", False):
+                    continue  # e.g. merged with another transaction by simultaneous(): no own transaction left
                 raise RuntimeError(f"cannot identify the transaction of caller {name}")
             self.add_obs(f"{name}.runnable", ts[0].runnable)
 
